@@ -398,7 +398,7 @@ def u_register_unbounded(c):
         def append(it__, b, kk):
             pair = b[0]
             if not (isinstance(pair, tuple) and len(pair) == 2):
-                raise PyRaise(it__.mk_exc("AssertionError", "register appends something that is not an (element, accumulator) pair"))
+                raise PyRaise(AssertionError("register appends something that is not an (element, accumulator) pair"))
             it__.ctx.emit(ev_app(key, it__.to_val(pair[0]), it__.to_val(pair[1])))
 
         return SymObj("accumulators[v]", Val.ref(z3.IntVal(c.new_id())), attrs={"append": SummaryFn("append", append)}, closed=True)
